@@ -817,7 +817,10 @@ class Exec:
     def fconst(s, d, n):
         if s.fmode == 'real':
             from fractions import Fraction
-            if d != d or d in (float('inf'), float('-inf')): raise Unsupported('non-finite const in real mode')
+            if d != d or d in (float('inf'), float('-inf')):
+                if getattr(s, 'real_nonfinite', None) == 'oblige':      # (additive opt-in, C13) the constant becomes an arbitrary real and a side obligation says the block evaluating it is unreachable
+                    s.oblige('domain', z3.BoolVal(True), 'non-finite constant (inf/NaN) evaluated in rounding-erased execution'); return RV(n, s.fresh_real('nonfinite'))
+                raise Unsupported('non-finite const in real mode')
             if n == 32:
                 import struct; d = struct.unpack('f', struct.pack('f', d))[0]
             rc = getattr(s, 'real_consts', None)      # optional {(bits, literal value): symbolic real}, e.g. pi literals (engine/realtrig.py:map_pi_literals)
